@@ -327,3 +327,165 @@ func AddInt64(p *int64, d int64) int64 {
 	atomicPoint(cellOf(unsafe.Pointer(p)))
 	return atomic.AddInt64(p, d)
 }
+
+// ------------------------------------------------------------------ typed atomics (sync/atomic since go1.19)
+
+type AtomicInt32 struct {
+	v  int32
+	hb uint64
+}
+
+func (a *AtomicInt32) Load() int32   { atomicPoint(&a.hb); return atomic.LoadInt32(&a.v) }
+func (a *AtomicInt32) Store(x int32) { atomicPoint(&a.hb); atomic.StoreInt32(&a.v, x) }
+func (a *AtomicInt32) Add(d int32) int32 {
+	atomicPoint(&a.hb)
+	return atomic.AddInt32(&a.v, d)
+}
+func (a *AtomicInt32) Swap(x int32) int32 { atomicPoint(&a.hb); return atomic.SwapInt32(&a.v, x) }
+func (a *AtomicInt32) CompareAndSwap(o, n int32) bool {
+	atomicPoint(&a.hb)
+	return atomic.CompareAndSwapInt32(&a.v, o, n)
+}
+
+type AtomicInt64 struct {
+	v  int64
+	hb uint64
+}
+
+func (a *AtomicInt64) Load() int64   { atomicPoint(&a.hb); return atomic.LoadInt64(&a.v) }
+func (a *AtomicInt64) Store(x int64) { atomicPoint(&a.hb); atomic.StoreInt64(&a.v, x) }
+func (a *AtomicInt64) Add(d int64) int64 {
+	atomicPoint(&a.hb)
+	return atomic.AddInt64(&a.v, d)
+}
+func (a *AtomicInt64) Swap(x int64) int64 { atomicPoint(&a.hb); return atomic.SwapInt64(&a.v, x) }
+func (a *AtomicInt64) CompareAndSwap(o, n int64) bool {
+	atomicPoint(&a.hb)
+	return atomic.CompareAndSwapInt64(&a.v, o, n)
+}
+
+type AtomicUint32 struct {
+	v  uint32
+	hb uint64
+}
+
+func (a *AtomicUint32) Load() uint32   { atomicPoint(&a.hb); return atomic.LoadUint32(&a.v) }
+func (a *AtomicUint32) Store(x uint32) { atomicPoint(&a.hb); atomic.StoreUint32(&a.v, x) }
+func (a *AtomicUint32) Add(d uint32) uint32 {
+	atomicPoint(&a.hb)
+	return atomic.AddUint32(&a.v, d)
+}
+func (a *AtomicUint32) Swap(x uint32) uint32 { atomicPoint(&a.hb); return atomic.SwapUint32(&a.v, x) }
+func (a *AtomicUint32) CompareAndSwap(o, n uint32) bool {
+	atomicPoint(&a.hb)
+	return atomic.CompareAndSwapUint32(&a.v, o, n)
+}
+
+type AtomicUint64 struct {
+	v  uint64
+	hb uint64
+}
+
+func (a *AtomicUint64) Load() uint64   { atomicPoint(&a.hb); return atomic.LoadUint64(&a.v) }
+func (a *AtomicUint64) Store(x uint64) { atomicPoint(&a.hb); atomic.StoreUint64(&a.v, x) }
+
+// Add is used for counters whose value may matter: a scheduling point (unlike the package-level AddUint64).
+func (a *AtomicUint64) Add(d uint64) uint64 {
+	atomicPoint(&a.hb)
+	return atomic.AddUint64(&a.v, d)
+}
+func (a *AtomicUint64) Swap(x uint64) uint64 { atomicPoint(&a.hb); return atomic.SwapUint64(&a.v, x) }
+func (a *AtomicUint64) CompareAndSwap(o, n uint64) bool {
+	atomicPoint(&a.hb)
+	return atomic.CompareAndSwapUint64(&a.v, o, n)
+}
+
+type AtomicBool struct {
+	v  int32
+	hb uint64
+}
+
+func b2i(b bool) int32 {
+	if b {
+		return 1
+	}
+	return 0
+}
+func (a *AtomicBool) Load() bool   { atomicPoint(&a.hb); return atomic.LoadInt32(&a.v) != 0 }
+func (a *AtomicBool) Store(x bool) { atomicPoint(&a.hb); atomic.StoreInt32(&a.v, b2i(x)) }
+func (a *AtomicBool) Swap(x bool) bool {
+	atomicPoint(&a.hb)
+	return atomic.SwapInt32(&a.v, b2i(x)) != 0
+}
+func (a *AtomicBool) CompareAndSwap(o, n bool) bool {
+	atomicPoint(&a.hb)
+	return atomic.CompareAndSwapInt32(&a.v, b2i(o), b2i(n))
+}
+
+type AtomicPointer[T any] struct {
+	v  atomic.Pointer[T]
+	hb uint64
+}
+
+func (a *AtomicPointer[T]) Load() *T   { atomicPoint(&a.hb); return a.v.Load() }
+func (a *AtomicPointer[T]) Store(x *T) { atomicPoint(&a.hb); a.v.Store(x) }
+func (a *AtomicPointer[T]) Swap(x *T) *T {
+	atomicPoint(&a.hb)
+	return a.v.Swap(x)
+}
+func (a *AtomicPointer[T]) CompareAndSwap(o, n *T) bool {
+	atomicPoint(&a.hb)
+	return a.v.CompareAndSwap(o, n)
+}
+
+// ------------------------------------------------------------------ sync.Cond
+
+// Cond replaces sync.Cond.
+type Cond struct {
+	L interface {
+		Lock()
+		Unlock()
+	}
+	waiters []*condWaiter
+	hb      uint64
+}
+
+type condWaiter struct{ woken bool }
+
+// NewCond replaces sync.NewCond.
+func NewCond(l interface {
+	Lock()
+	Unlock()
+}) *Cond {
+	return &Cond{L: l}
+}
+
+//go:norace
+func (c *Cond) Wait() {
+	w := &condWaiter{}
+	c.waiters = append(c.waiters, w)
+	c.L.Unlock()
+	Block(&c.hb, func() bool { return w.woken })
+	raceAcquire(unsafe.Pointer(c))
+	c.L.Lock()
+}
+
+//go:norace
+func (c *Cond) Signal() {
+	atomicPoint(&c.hb)
+	raceReleaseMerge(unsafe.Pointer(c))
+	if len(c.waiters) > 0 {
+		c.waiters[0].woken = true
+		c.waiters = c.waiters[1:]
+	}
+}
+
+//go:norace
+func (c *Cond) Broadcast() {
+	atomicPoint(&c.hb)
+	raceReleaseMerge(unsafe.Pointer(c))
+	for _, w := range c.waiters {
+		w.woken = true
+	}
+	c.waiters = nil
+}
